@@ -77,6 +77,7 @@ type lockRec struct {
 type flushRec struct {
 	Gen  uint64      `json:"gen"`
 	Muts [][2]string `json:"muts"`
+	Ops  []int32     `json:"ops"` // kvrpcpb.Op of every mutation (Put 0, Del 1, Insert 4, CheckNotExists 6)
 }
 
 type shim struct {
@@ -122,6 +123,7 @@ func (s *shim) SendRequest(ctx context.Context, addr string, req *tikvrpc.Reques
 		rec := flushRec{Gen: fr.Generation}
 		for _, m := range fr.Mutations {
 			rec.Muts = append(rec.Muts, [2]string{hex.EncodeToString(m.Key), hex.EncodeToString(m.Value)})
+			rec.Ops = append(rec.Ops, int32(m.Op))
 		}
 		s.mu.Lock()
 		s.flushes = append(s.flushes, rec)
@@ -147,6 +149,9 @@ func (s *shim) SendRequest(ctx context.Context, addr string, req *tikvrpc.Reques
 			// TiKV: a flush that is not newer than the existing lock is stale and ignored; a newer one replaces the lock
 			s.mu.Lock()
 			for _, m := range fr.Mutations {
+				if m.Op == kvrpcpb.Op_CheckNotExists {
+					continue // asserts absence at the store, writes no lock
+				}
 				if old, ok := s.shadow[string(m.Key)]; ok && old.gen >= fr.Generation {
 					continue
 				}
